@@ -364,9 +364,11 @@ def validate_traces(module, cfg, trace_file, timeout=600, workdir=None, max_reje
         prev = flat[hwm - 1][1] if hwm > 0 else ''
         rejections.append({'t': tid, 'line': json.loads(bad), 'prev': json.loads(prev) if prev else None})
         traces = [(t, ls) for t, ls in traces if t != tid]
+    accepted = len(traces)
     if rounds > max_reject and traces:
-        log('[tv] stopped after %d rejections; remaining traces not all examined' % max_reject)
-    return total - len(rejections), rejections, tlc_out
+        log('[tv] stopped after %d rejections; %d remaining traces not all examined' % (max_reject, len(traces)))
+        accepted = 0
+    return accepted, rejections, tlc_out
 
 
 def validate_cases(module, cfg, trace_file, timeout=900, workdir=None):
